@@ -29,7 +29,7 @@ _REF: Optional[dict] = None
 # rule that fired on one of them is a matcher and is listed; the rules not listed stayed silent on all of them.
 NET_APPLIES = {
     "root-unique", "root-pairing", "root-position-corrected", "root-evaluates-once", "root-cost", "root-fitness",
-    "greedy-population-pairing", "greedy-shape", "weight-count-mismatch-rejected", "negative-weights-rejected", "entry-guard",
+    "greedy-population-pairing", "greedy-population-sorted", "greedy-shape", "weight-count-mismatch-rejected", "negative-weights-rejected", "entry-guard",
     "valueerror-only", "list-or-float-arithmetic", "rate-value", "diff-value", "stop-on-current-rate", "one-rate-per-cycle",
     "same-count-as-serial", "gather-exactly-once", "one-future-per-item", "pool-hand-off", "generate-agents-exact",
     "init-population-size", "forwarding", "modes-validated-at-construction", "same-row", "winner-is-min-rank",
